@@ -46,7 +46,8 @@ AddLine == /\ phase = "lines" /\ Len(lines) < MaxLines
            /\ \E f \in FormsOf(tool) : lines' = Append(lines, f)
            /\ UNCHANGED <<tool, spell, act, phase>>
 Finish == /\ phase = "lines" /\ lines # <<>>
-          /\ spell' \in {"dot", "rel", "abs", "sub", "subdot", "gen", "gendot"}
+          \* (outer: the search root is the directory above the git repository - the repository is discovered on the way down)
+          /\ spell' \in {"dot", "rel", "abs", "sub", "subdot", "gen", "gendot"} \cup (IF tool = "git" THEN {"outer"} ELSE {})
           /\ act' \in {"option", "config", "override"}
           \* the spelling and the activation are varied one at a time
           /\ (spell' = "dot" \/ act' = "option")
@@ -68,10 +69,10 @@ W == [gitinit |-> (tool = "git"),
 
 OptWord == CASE tool = "git" -> "gitignore" [] tool = "docker" -> "dockerignore" [] OTHER -> "hgignore"
 RootText == CASE spell = "dot" -> "'.'" [] spell = "rel" -> "'r'" [] spell = "abs" -> "'@ROOT@'" [] spell = "sub" -> "'src'" [] spell = "subdot" -> "'.'"
-              [] spell = "gen" -> "'src/gen'" [] spell = "gendot" -> "'.'"
+              [] spell = "gen" -> "'src/gen'" [] spell = "gendot" -> "'.'" [] spell = "outer" -> "'.'"
 OptText == CASE act = "option" -> " " \o OptWord [] act = "config" -> "" [] act = "override" -> " no" \o OptWord
 Query == "select inode, path from " \o RootText \o OptText
-         \o " where name != '.git' and path not like '%/.git/%' and name != '.hg' into list"
+         \o " where name != '.git' and path not like '%/.git/%' and name != '.hg'" \o (IF spell = "outer" THEN " and path like './r/%'" ELSE "") \o " into list"
 Cfg == IF act = "option" THEN [debug |-> FALSE, gitignore |-> FALSE, hgignore |-> FALSE, dockerignore |-> FALSE]
        ELSE [debug |-> FALSE, gitignore |-> (tool = "git"), hgignore |-> (tool \in {"hgglob", "hgrx"}), dockerignore |-> (tool = "docker")]
 RECURSIVE LinesClass(_)
@@ -79,7 +80,7 @@ LinesClass(i) == IF i > Len(lines) THEN "" ELSE (IF i > 1 THEN "+" ELSE "") \o l
 Scenario == [prop |-> "C20", class |-> tool \o "/" \o LinesClass(1) \o "/" \o spell \o "/" \o act, world |-> W, tool |-> tool,
              lines |-> [i \in 1 .. Len(lines) |-> Forms[lines[i]]], active |-> (act # "override"),
              root |-> IF spell \in {"sub", "subdot"} THEN 4 ELSE IF spell \in {"gen", "gendot"} THEN 7 ELSE 0,
-             env |-> [tz |-> "UTC", cwd |-> (CASE spell = "rel" -> -1 [] spell = "subdot" -> 4 [] spell = "gendot" -> 7 [] OTHER -> 0), config |-> Cfg],
+             env |-> [tz |-> "UTC", cwd |-> (CASE spell \in {"rel", "outer"} -> -1 [] spell = "subdot" -> 4 [] spell = "gendot" -> 7 [] OTHER -> 0), config |-> Cfg],
              runs |-> << [tag |-> "q", ncols |-> 2, argv |-> << Query >>] >>]
 Emit == phase = "done" => PrintT(<<"REPLAY", ToJson(Scenario)>>)
 =============================================================================
